@@ -1,4 +1,4 @@
-import CV.Proofs.CatModels
+import CV.Proofs.CatComplete
 /-!
 # C19 (component `cat`): constructors of the integer entropy models reject invalid input
 
@@ -141,6 +141,24 @@ theorem C19_nclookup {Sym : Type} [Inhabited Sym] {B P : Nat} {syms : List Sym}
       LookupOK P (extOf qs) m.tbl :=
   NcLookup.fromFixed_some hP1 hP hprobs
 
+/-- **acceptance criteria, both directions**, for the remaining fixed-point constructors:
+    accepted iff the full table (`fullTable` = input, plus the inferred entry) is valid, the
+    number of symbols equals the number of entries (D13) and — encoder only — the symbols are
+    pairwise distinct.  In particular `infer_last_probability` works at `P = B` for all of
+    them (D8). -/
+theorem C19_acceptance_iff {Sym : Type} [DecidableEq Sym] [Inhabited Sym] {B P : Nat}
+    {syms : List Sym} {probs : List Nat} {infer : Bool}
+    (hP1 : 1 ≤ P) (hP : P ≤ B) (hprobs : ∀ p ∈ probs, p < 2 ^ B) :
+    ((∃ m, NcEnc.fromSymbolsAndNonzeroFixedPoint B P syms probs infer = some m) ↔
+      ValidProbs P (fullTable P probs infer) ∧ syms.length = (fullTable P probs infer).length ∧
+        syms.Nodup) ∧
+    ((∃ m, NcDec.fromSymbolsAndNonzeroFixedPoint B P syms probs infer = .ok (some m)) ↔
+      ValidProbs P (fullTable P probs infer) ∧ syms.length = (fullTable P probs infer).length) ∧
+    ((∃ m, Lookup.fromNonzeroFixedPoint B P probs infer = some m) ↔
+      ValidProbs P (fullTable P probs infer)) :=
+  ⟨NcEnc.fromFixed_iff hP1 hP hprobs, NcDec.fromFixed_iff hP1 hP hprobs,
+   Lookup.fromFixed_iff hP1 hP hprobs⟩
+
 /-- mismatched symbol / weight counts in the `…_fast` constructors (D13) never give a model -/
 theorem C19_fast_counts {Sym : Type} [DecidableEq Sym] {B P : Nat} {syms : List Sym}
     {cdf : List Nat} (h : syms.length ≠ cdf.length) :
@@ -171,6 +189,7 @@ example : Contiguous.fromNonzeroFixedPoint 8 8 [0] false = none := by decide
 example : Contiguous.fromNonzeroFixedPoint 8 3 [] true = none := by decide
 example : Contiguous.fromNonzeroFixedPoint 8 3 [8] false = none := by decide
 example : ValidProbs 8 [100, 100, 56] := ⟨by decide, by decide, by decide⟩
+example : ValidProbs 8 (fullTable 8 [100, 100] true) := ⟨by decide, by decide, by decide⟩
 example : Uniform.new 8 8 10 = .ok { ppb := 25, last := 9 } := by rfl
 
 #print axioms C19_validator_accepts_only_valid
@@ -183,6 +202,7 @@ example : Uniform.new 8 8 10 = .ok { ppb := 25, last := 9 } := by rfl
 #print axioms C19_ncenc
 #print axioms C19_lookup
 #print axioms C19_nclookup
+#print axioms C19_acceptance_iff
 #print axioms C19_fast_counts
 #print axioms C19_uniform
 
